@@ -67,6 +67,9 @@ PROPS = {
     level_note=LN_RING,
     lean=["C16", "C16_LockRing", "C13_ZeroCopy"],
     scenarios=[ring("atomic", "mixed", 1600), ring("fullsync", "mixed", 1600)] +
+              # "after any number of fill/drain cycles": the same scenarios with the sequence counters about to wrap (cf. C15)
+              [ring(k, "mixed", 400, extra=["origins=4294967288,4294967280,4294967264"]) for k in ("atomic", "fullsync")] +
+              [ring(k, "diff", 150, extra=["origins=0,4294967288,4294967280"], model=False) for k in ("atomic", "fullsync")] +
               [dict(bin="uni", args=[f"kind={k}", "sub=flow"], runs=300, model_name="M8 Wake", kinds=["rejected_delivered", "invented", "duplicate", "lost", "panic"]) for k in UNI_KINDS],
     rule=RING_RULE,
     trusted_base=TB_COMMON,
@@ -123,15 +126,15 @@ PROPS = {
     assumptions=["counts stay below the documented u32::MAX reset"],
  ),
  "C04": dict(
-    level_text="Lean 4 proof of `no reachable state is stuck` (an accepted event pending, all producers returned, every live stream parked and un-notified) for the poll/park/wake protocol model, for all six wake rules (uni full-sync, atomic, crossbeam, send-reserved; a Multi listener's queue on the atomic and on the full-sync channels), every number of streams/producers/buffer sizes/schedules, spurious polls and waker changes included, by an inductive invariant; counterexample theorems for what the invariant does not survive (movable send_with_async, MAX_STREAMS = 0). Tied to the five real Uni channels by step-level replay of scheduled runs - including runs that end stuck, where model and code agree step by step; stuck states are decided by the scheduler (nobody runnable), not timed out. A second, finer-grained search (every ring access a yield point) judges the implementation alone.",
+    level_text="Lean 4 proof of `no reachable state is stuck` (an accepted event pending, all producers returned, every live stream parked and un-notified) for the poll/park/wake protocol model, for all six wake rules (uni full-sync, atomic, crossbeam, send-reserved; a Multi listener's queue on the atomic and on the full-sync channels), every number of streams/producers/buffer sizes/schedules, spurious polls and waker changes included, by an inductive invariant; counterexample theorems for what the invariant does not survive (movable send_with_async, MAX_STREAMS = 0). The wake decision of EVERY send path of EVERY channel is re-read from the current source on every run by the translator (tools/extract.py G3 -> Generated/WakeRules.lean, a guard-chain term per function) and proved, for all MAX_STREAMS and lengths, to compute the model rule the theorem is instantiated with (Props/C04_Rules.lean, 24 send paths). Tied to the five real Uni channels by step-level replay of scheduled runs - including runs that end stuck, where model and code agree step by step; stuck states are decided by the scheduler (nobody runnable), not timed out. A second, finer-grained search (every ring access a yield point) judges the implementation alone.",
     level_note="Theorem about model M8, in which a queue operation is one step (C02) - the two-phase publication of the atomic rings is visible only to the oracle-only `fine` search; one task per stream token for C07; Multi channels are replayed through one listener (MAX_STREAMS = 1; with several listeners each queue runs the same protocol independently); the log channel wakes every listener after every publication (covered by the oracle of its own scenario). Known findings are listed in known_findings.json.",
-    lean=["C04"],
+    lean=["C04", "C04_Rules"],
     scenarios=[dict(bin="uni", args=[f"kind={k}", "sub=flow"], runs=500, model_name="M8 Wake", kinds=["lost_wakeup", "no_progress", "panic"]) for k in UNI_KINDS] +
               [dict(bin="uni", args=[f"kind={k}", "sub=flow"], runs=300, model_name="M8 Wake", kinds=["lost_wakeup", "no_progress", "panic"]) for k in MULTI1_KINDS] +
               [dict(bin="uni", args=[f"kind={k}", "sub=fine"], runs=300, model=False, model_name="(oracle only)", kinds=["lost_wakeup", "no_progress", "panic"]) for k in UNI_KINDS] +
               [dict(bin="mmaplog", args=["sub=wake"], runs=600, model=False, model_name="(oracle only: log channel, parked listener tasks)", kinds=["lost_wakeup", "no_progress", "panic"])],
     rule=UNI_RULE + "; log channel (`mmaplog sub=wake`): 1-2 new-events listeners driven by tasks that are polled only while notified, 1-3 producers (send / send_with), yield points at every log-topic access and every wake-protocol access",
-    trusted_base=TB_COMMON + ["crossbeam-channel: linearizable bounded queue with a linearizable len()", "the hand-rolled executor of the harness (re-polls a parked task iff its waker fired, or spuriously) stands for tokio's"],
+    trusted_base=TB_COMMON + ["tools/extract.py G3 (wake-rule translator): regex-level reading of `if … else if … { wake_stream(x) }` cascades; what it cannot express becomes an `.other` term on which the rule theorems fail", "crossbeam-channel: linearizable bounded queue with a linearizable len()", "the hand-rolled executor of the harness (re-polls a parked task iff its waker fired, or spuriously) stands for tokio's"],
     assumptions=["streams 0..k-1 of a Uni channel exist for the whole run (documented use)", "MAX_STREAMS >= 1"],
  ),
  "C07": dict(
